@@ -432,6 +432,19 @@ impl SimProc {
                     self.now = t;
                     self.pc += 1;
                     true
+                } else if !self.file_args.is_empty() && !self.emit_stdout {
+                    // `rustfmt <file>` rewrites the file in place: what the child has produced so
+                    // far is what the file holds from now on (a child that dies next leaves it so)
+                    self.now = t;
+                    let bytes: Vec<u8> = self.outbuf.drain(..).collect();
+                    for path in &self.file_args {
+                        let _ = std::fs::write(path, &bytes);
+                    }
+                    self.wrote_any = true;
+                    self.stats.bytes_from_child += bytes.len() as u64;
+                    self.ev('C', "rewrite_file", bytes.len() as i64, 0);
+                    self.pc += 1;
+                    true
                 } else if self.stdout.sink {
                     self.now = t;
                     self.outbuf.clear();
